@@ -46,10 +46,6 @@ pub mod vx_set {
     }
     }
 }
-#[verifier::external]
-impl std::hash::Hash for crate::graph::BuildId {
-    fn hash<H: std::hash::Hasher>(&self, state: &mut H) { self.0.hash(state) }
-}
 
 // ---- abstract view of task::Runner (trusted boundary: threads + channel) ---------------------
 pub mod rs {
